@@ -262,10 +262,20 @@ var mutatorStates = []map[string]interface{}{
 	{"cfg": map[string]interface{}{"deep": map[string]interface{}{"list": []interface{}{"x", "y"}}}, "queue": []interface{}{"a"}},
 	{"ints": []interface{}{int64(1), int64(2)}, "i": int64(7)},
 	{"only": "scalars", "k": 2.0, "z": nil},
+	{"tags": []string{"a", "b"}, "attrs": map[string]string{"k": "v"}, "n": 1.0},
+	{"?order": map[string]interface{}{"items": []map[string]interface{}{{"sku": "x"}}, "nums": []int{1, 2}}},
 }
 
+// tallyJS keeps a tally in a built-in object: if anything of one execution
+// survives into the next, a repeated call gives a different result.
+const tallyJS = `Math.tally = (Math.tally || 0) + 1; Object.prototype.seen = (Object.prototype.seen || 0) + 1; var G = Function("return this")(); G.counter = (G.counter || 0) + 1; return {tally: Math.tally, seen: ({}).seen, counter: G.counter};`
+
 func mutatorSpec(position string, settings int) *ref.ASpec {
-	mut := &ref.Prog{Ops: []ref.Op{{Op: "raw", V: mutatorJS, K: "", K2: "weak"}}, Ret: "same"}
+	return scriptSpec(mutatorJS, position, settings)
+}
+
+func scriptSpec(src string, position string, settings int) *ref.ASpec {
+	mut := &ref.Prog{Ops: []ref.Op{{Op: "raw", V: src, K: "", K2: "weak"}}, Ret: "same"}
 	a := &ref.ASpec{Name: "mutator", Nodes: map[string]*ref.ANode{"n2": {}, "aerr": {}}}
 	switch settings {
 	case 1:
@@ -305,7 +315,7 @@ func renderSpec(a *ref.ASpec, render string) (*core.Spec, error) {
 
 func Run(cfg fw.Config, rec *fw.Rec) {
 	rec.Rule = "(a) every enumerated single-node configuration of C04's full vocabulary (failing / null-returning actions, rejecting / failing guards, invalid patterns, missing and @var targets, 4 error settings) x 5 states x 5 pendings, Step and Walk (limits 0,1,100), rendered with native actions (nil,err), native (partial,err), native identity action, and ECMAScript (sampled); (b) random multi-node specs with message sequences; deep snapshots of state, messages, control, props and spec are compared before/after, result maps are checked for identity with input maps, and the call is repeated; non-trivial = case whose result has a next state, an error, or emissions; distinct by canonical case"
-	rec.Required = []string{"op_step", "op_walk", "render_native-nilerr", "render_native-partial", "render_native-identity", "render_ecma", "path_action_failed", "path_error_node", "path_limit", "random_walks", "inplace_mutator_scripts"}
+	rec.Required = []string{"op_step", "op_walk", "render_native-nilerr", "render_native-partial", "render_native-identity", "render_ecma", "path_action_failed", "path_error_node", "path_limit", "random_walks", "inplace_mutator_scripts", "builtin_state_scripts_repeated"}
 	rec.Assume = []string{"native actions copy their input before modifying it (except the identity action, which returns it untouched), so a write into caller-owned data is the engine's", "equality of repeated results is claimed for guarded branches with at most one candidate"}
 	cs := c04.Configs(true)
 	states := c04.States()
@@ -378,6 +388,23 @@ func Run(cfg fw.Config, rec *fw.Rec) {
 						rec.Bucket("inplace_mutator_scripts")
 						rec.Nontrivial(fmt.Sprintf("mutator-%s-%d-%d-%s", position, settings, si, op))
 					}
+				}
+			}
+		}
+	}
+	// a script that keeps state in built-in objects: repeating the call must give the same result
+	for _, position := range []string{"action", "guard"} {
+		a := scriptSpec(tallyJS, position, 0)
+		spec, err := a.Compiled(false, ref.NativeNilErr)
+		if err != nil {
+			rec.Inconclusive("tally spec: " + err.Error())
+			continue
+		}
+		for rep := 0; rep < 20; rep++ {
+			for _, op := range []string{"step", "walk"} {
+				cd := &caseDesc{Spec: a, Render: "ecma-builtin-tally", State: ref.AState{Node: "start", Bs: map[string]interface{}{"a": 1.0}}, Limit: 5, Op: op}
+				if judge(rec, cd, spec, false) {
+					rec.Bucket("builtin_state_scripts_repeated")
 				}
 			}
 		}
